@@ -273,7 +273,7 @@ def monitor_env():
         "TemplateNode": lambda c: view(c.generate_repeating_template(survey=survey_of(c))),
         "FlatKids": lambda c: view(c.xml_instance_array(survey=survey_of(c))),
         "ElemFlat": lambda c: c.get("flat") if hasattr(c, "flat") else None,
-        "LabelHintNodes": lambda e, s: view(e.xml_label_and_hint(survey=s)),
+        "HintNode": lambda e, s: view(e.xml_hint(survey=s)),
         "SectionInstance": lambda sec, s: view(type(sec).__mro__[[c.__name__ for c in type(sec).__mro__].index("Section")].xml_instance(sec, survey=s)),
         "SplitExt": lambda p: __import__("os").path.splitext(p),
         "BuiltControl": lambda q, s: view(q.build_xml(survey=s)),
@@ -294,8 +294,8 @@ def monitor_env():
         "_universe": universe,
     }
     for k in ("Descendants", "XPathOf", "Subst", "SubstIn", "IovText", "IovFlag", "ElemBinds", "ElemDynDefault",
-              "RepeatAncestors", "ChildInst", "TemplateInst", "TemplateNode", "FlatKids", "ElemFlat", "LabelHintNodes",
-              "SectionInstance", "is_a", "has_attr", "ChildControl", "LabelNode", "RepeatDynDefaults", "BuiltControl"):
+              "RepeatAncestors", "ChildInst", "TemplateInst", "TemplateNode", "FlatKids", "ElemFlat",
+              "SectionInstance", "is_a", "has_attr", "HintNode", "ChildControl", "LabelNode", "RepeatDynDefaults", "BuiltControl"):
         env[k] = U(env[k])
     return env
 
@@ -308,6 +308,7 @@ MONITORED = [
     "pyxform.survey_element.SurveyElement.xml_hint",
     "pyxform.survey_element.SurveyElement.needs_itext_ref",
     "pyxform.survey_element.SurveyElement._translation_path",
+    "pyxform.survey_element.SurveyElement.xml_label_and_hint",
     "pyxform.question.Question.xml_instance",
     "pyxform.question.Question.xml_action",
     "pyxform.question.Question._build_xml",
